@@ -15,6 +15,7 @@ TRUSTED = [
     "the file system as an oracle: get_files_from_dir / zone_from_file / hosts_from_file are stand-ins whose results are functions of the path (one consistent snapshot per load)",
     "Zones::new / insert_merge, Hosts::default / merge, Zone::from(Hosts): stand-ins that log their arguments in order (their meaning: unit zone_merge)",
     "get_files_from_dir (module `listing` of the generated unit): tokio::fs::read_dir / next_entry / DirEntry::path as stand-ins over an oracle sequence of entries, Path::is_dir as an uninterpreted predicate, `out.sort()` as a sorted rearrangement (R44)",
+    "R45 / R54 (reload): the body of reload_task's loop is read as `reload_once__(stream__, lock__, args) -> ZonesLock` (block text verbatim; added: the `let mut` rebindings at entry, the lock as the result); `let mut g = zones_lock.write().await; *g = v;` is read as `zones_lock.replace(v)` on a stand-in that records the configuration in force; the signal stream is a stand-in; that readers see either the old or the new value is the RwLock's, not proved",
     "R42: `Vec::from(slice)` as a shim with the same sequence; `Path::new(p)` dropped (the stand-ins take the PathBuf); R43: `hosts.into()` as shim_hosts_into_zone(hosts)",
 ]
 
@@ -220,6 +221,50 @@ SPEC = {
 }
 
 
+MAIN = "crates/resolved/src/main.rs"
+
+RELOAD_STANDINS = """
+// ---- one turn of reload_task's loop (R45): SIGUSR1 arrives, the configuration is loaded afresh and put in place of the old one
+pub struct Args { pub hosts_file: Vec<PathBuf>, pub hosts_dir: Vec<PathBuf>, pub zone_file: Vec<PathBuf>, pub zones_dir: Vec<PathBuf> }
+pub struct SignalStream { s: u8 }
+impl SignalStream {
+    #[verifier::external_body]
+    pub fn recv(&mut self) -> (r: Option<()>) { unimplemented!() }
+}
+// R9: Arc<RwLock<Zones>>; cur: the configuration in force (what was merged into it, in order); writes: how often it was replaced
+pub struct ZonesLock { pub cur: Ghost<Seq<Zone>>, pub writes: Ghost<nat> }
+impl ZonesLock {
+    // R54: `let mut lock = zones_lock.write().await; *lock = zones;` - the guarded value is replaced as a whole
+    #[verifier::external_body]
+    pub fn replace(&mut self, zones: Zones)
+        ensures final(self).cur@ == zones.log@, final(self).writes@ == old(self).writes@ + 1,
+    { unimplemented!() }
+}
+// the configuration the files named by the arguments denote at this moment, if every one of them loads
+pub open spec fn fresh_config(a: Args) -> Option<Seq<Zone>> {
+    let zp = gather(a.zone_file@, a.zones_dir@, a.zones_dir@.len() as int);
+    let hp = gather(a.hosts_file@, a.hosts_dir@, a.hosts_dir@.len() as int);
+    if dirs_ok(a.zones_dir@, a.zones_dir@.len() as int) && dirs_ok(a.hosts_dir@, a.hosts_dir@.len() as int) && zones_ok(zp, zp.len() as int) && hosts_ok(hp, hp.len() as int) {
+        Some(zones_loaded(zp, zp.len() as int).push(hosts_zone(hosts_loaded(hp, hp.len() as int))))
+    } else { None }
+}
+#[verifier::external_body]
+fn shim_paths(v: &Vec<PathBuf>) -> (r: &[PathBuf]) ensures r@ == v@ { v.as_slice() }
+"""
+
+RELOAD_SPEC = {
+    "props": ["C19"], "ret": "fin",
+    "rewrites": [("R30", r"\s*\.instrument\(tracing::\w+!\((?:[^()]|\([^()]*\))*\)\)", ""), ("R32", r"\s*\.await\b", ""),
+                 ("R29", r"let start = Instant::now\(\);", ""),
+                 ("R42", r"&args\.(hosts_file|hosts_dir|zone_file|zones_dir)\b", r"shim_paths(&args.\1)"),
+                 ("R54", r"let mut (\w+) = zones_lock\.write\(\);\s*\*\1 = ([^;]+);", r"zones_lock.replace(\2);")],
+    "contract": """    ensures
+        fin.cur@ == (match fresh_config(args) { Some(z) => z, None => lock__.cur@ }), // [C19:the_configuration_is_replaced_as_a_whole_by_the_freshly_loaded_one_or_stays_fully_in_force]
+        fin.writes@ <= lock__.writes@ + 1, // [C19:the_configuration_is_replaced_at_most_once_per_signal]""",
+    "entry": "let mut stream = stream__; let mut zones_lock = lock__; // R45: the captured values, mutable as in the task",
+}
+
+
 def build(G):
     G.file(os.path.join(PRELUDE, "header.rs"))
     G.raw("verus! {")
@@ -235,12 +280,17 @@ def build(G):
     ds["rewrites"] = [r if r[0] != "R24" else ("R24", _r24) for r in DIR_SPEC["rewrites"]]
     G.top_fn(F, "get_files_from_dir", {"get_files_from_dir": ds})
     G.raw("} }")
+    # R45: the body of reload_task's loop, read as a function over what the task holds
     G.raw("verus! {")
+    G.raw(RELOAD_STANDINS, ("spec", "reload stand-ins"))
+    G.block_fn(G.src(MAIN), "reload_task", r"loop \{", "fn reload_once__(stream__: SignalStream, lock__: ZonesLock, args: Args) -> ZonesLock", "reload_once__", {"reload_once__": dict(RELOAD_SPEC)}, tail="zones_lock ")
     G.raw("} // verus!")
     G.raw("fn main() {}")
 
 
 CANARIES = [
+    {"name": "reload_falls_back_to_an_empty_configuration", "file": MAIN, "old": "            let mut lock = zones_lock.write().await;\n            *lock = zones;", "new": "            let mut lock = zones_lock.write().await;\n            *lock = zones;\n        } else if args.zone_file.is_empty() {\n            let mut lock = zones_lock.write().await;\n            *lock = Zones::new();"},
+    {"name": "reload_swaps_the_zone_and_hosts_directories", "file": MAIN, "old": "            &args.hosts_dir,\n            &args.zone_file,\n            &args.zones_dir,\n        )\n        .instrument(tracing::error_span!(\"SIGUSR1\"))", "new": "            &args.zones_dir,\n            &args.zone_file,\n            &args.hosts_dir,\n        )\n        .instrument(tracing::error_span!(\"SIGUSR1\"))"},
     {"name": "only_regular_files_are_listed", "file": FS, "old": "        if !path.is_dir() {", "new": "        if path.is_file() {"},
     {"name": "unreadable_hosts_file_ignored", "file": FS, "old": "            Err(error) => {\n                tracing::warn!(?path, ?error, \"could not read hosts file\");\n                is_error = true;\n            }", "new": "            Err(error) => {\n                tracing::warn!(?path, ?error, \"could not read hosts file\");\n            }"},
     {"name": "partial_configuration_returned_on_error", "file": FS, "old": "    if is_error {\n        None\n    } else {", "new": "    if is_error && zone_file_paths.is_empty() {\n        None\n    } else {"},
